@@ -17,7 +17,7 @@ Notation FD := (FIm true).
 Definition ObjPost (curObj : N) (s : pstate) (g : ghost) (res : pres) (s' : pstate) : Prop :=
   exists g', FD s' g' /\ ExtD s g s' g' /\
     Fr (eq curObj) (eq curObj) (fun y => hasfl s curObj /\ In curObj (kids g y)) s g s' g' /\
-    finsert g g' curObj /\ Psi s' <= Psi s + 3 /\ res <> RShort /\
+    finsert s' g g' curObj /\ Psi s' <= Psi s + 3 /\ res <> RShort /\
     (res = ROk -> Psi s' <= Psi s + 1 /\ TM NoX s' g' /\ p_scopeStack s' = p_scopeStack s).
 
 (** a prefix object: its value is read; nothing else changes *)
